@@ -22,12 +22,48 @@ def lookup(idx, n):
     return idx.get((LELWEL_KIND[n.k], n.span[0], n.span[1]))
 
 
+SEM_SKIPPED = ("pred", "rename", "elide", "action")
+
+
+def self_only_branches(g):
+    """Branches of a rule-level alternation that are a concatenation holding, besides predicates /
+    renames / elisions / actions, nothing but a reference to the rule itself (`e: ?1 e | A;`,
+    `e: e #1 | A;`): the production e -> e.  Since 60ce2c1 lelwel rejects such a branch with E015
+    during its general check, i.e. *before* any first/follow/predict set is computed."""
+    out = []
+    for r in g.rules:
+        rx = r.regex
+        if rx is None or rx.k != "alt":
+            continue
+        for b in rx.ops:
+            if b.k != "concat":
+                continue
+            eff = [o for o in b.ops if o.k not in SEM_SKIPPED]
+            if len(eff) == 1 and eff[0].k == "name" and eff[0].v == r.name:
+                out.append(b)
+    return out
+
+
+def rejected_before_analysis(g, rep):
+    """True iff the model has a self-only left-recursive branch *and* lelwel reported E015 with exactly
+    that branch as primary span: the grammar was rejected by the general check, the LL(1) stage (which
+    computes the sets) did not run.  Both conditions are required so that sets missing for any other
+    reason stay visible to the judges."""
+    spans = {tuple(b.span) for b in self_only_branches(g)}
+    if not spans:
+        return False
+    for d in rep["diags"]:
+        if d["code"] == "E015" and d["sev"] == "error":
+            for l in d["labels"]:
+                if l["primary"] and (l["s"], l["e"]) in spans:
+                    return True
+    return False
+
+
 def plan(tier: str):
     """list of work units: ('small', kwargs) enumerations and ('random', count)"""
     if tier == "quick":
         return {
-            "small": [dict(max_total=5, ntokens=2, nrules=2, with_parts=True),
-                      dict(max_total=4, ntokens=3, nrules=1)],
             "small": [dict(max_total=6, ntokens=2, nrules=2, with_parts=True),
                       dict(max_total=5, ntokens=3, nrules=1)],
             "random": 40000,
@@ -38,6 +74,7 @@ def plan(tier: str):
         "small": [dict(max_total=7, ntokens=2, nrules=2, with_parts=True),
                   dict(max_total=6, ntokens=3, nrules=1)],
         "random": 150000,
+        "gvalid": 50000,
         "exhaustive_bound": "2 rules / 2 tokens / <=7 regex nodes, and 1 rule / 3 tokens / <=6 nodes",
     }
 
@@ -85,6 +122,9 @@ def _worker(args):
         res["evals"] += 1
         bump("origin_" + origin)
         out = judge(g, rs, rep, bump)
+        if out.get("skipped"):   # the judge found nothing of its property to observe on this grammar
+            res["evals"] -= 1
+            return
         if out.get("nontrivial"):
             res["nontrivial"] += 1
             res["keys"].append(hash(text) & 0xFFFFFFFFFFFF)
